@@ -8,3 +8,4 @@ open AgdbStorage
 #print axioms C04_reopen
 #print axioms C04_invariant
 #print axioms C04_calls_wellformed
+#print axioms C04_reopen_unbounded_counterexample
